@@ -1506,7 +1506,7 @@ class LangServer:
             self.obj_tree[key] = [obj, filepath]
         # Update local links/inheritance if necessary
         if update_links:
-            self.link_version = (self.link_version + 1) % 1000
+            self.link_version += 1
             ast_new.resolve_links(self.obj_tree, self.link_version)
         return True, None
 
@@ -1603,7 +1603,7 @@ class LangServer:
     def _resolve_all_links(self) -> None:
         """Resolve inheritance for every file first, then the links of every file, so
         that the result does not depend on the order of the files in the workspace"""
-        self.link_version = (self.link_version + 1) % 1000
+        self.link_version += 1
         for _, file_obj in self.workspace.items():
             for inherit_obj in file_obj.ast.inherit_objs:
                 inherit_obj.resolve_inherit(self.obj_tree, self.link_version)
